@@ -591,11 +591,11 @@ def run_python_part(ctx, coq_ok):
         cases.append((s, "small", "exhaustive"))
     for s in gen_grid(ctx.tier):
         cases.append((s, "big", "grid"))
-    for _ in range(1600 if quick else 14000):
+    for _ in range(1600 if quick else 10000):
         cases.append((gen_tree(rng), "big", "random"))
     for _ in range(200 if quick else 1500):
         cases.append((gen_tree(rng), "nomagic", "random-nomagic"))
-    for _ in range(500 if quick else 4000):
+    for _ in range(500 if quick else 3000):
         cases.append((gen_malformed(rng), "big", "malformed"))
     seen = set()
     uniq = []
@@ -661,12 +661,12 @@ def run_python_part(ctx, coq_ok):
         in_fragment = toks is not None and safe_list(toks)
         if in_fragment:
             ctx.count("py:in-proved-fragment:%s" % ("valid" if arb[0] == "ok" else "invalid"))
-            arb_kind = {"KeyError": "ETemplater", "ValueError": "EValue", "IndexError": "EIndex"}.get(arb[1], "ERuntime")
-            if rendered is None or (rendered[0] == "ok") != (arb[0] == "ok") or (arb[0] == "ok" and rendered[1] != arb[1]) \
-                    or (arb[0] != "ok" and rendered[1] != arb_kind):
+            # (which exception is raised is not compared here: at the nesting limit string.Formatter looks a name up before it
+            # notices the depth, str.format does not; the exact error kinds are compared model-vs-code in the correspondence)
+            if rendered is None or (rendered[0] == "ok") != (arb[0] == "ok") or (arb[0] == "ok" and rendered[1] != arb[1]):
                 ctx.broken_obligation("theorem C09_dot_hack_correct_partial predicts render_func == str.format with the dotted-name convention "
                                       "on this format string, the real render_func disagrees", {"input": inp, "render_func": rendered, "arbiter": arb})
-        if toks is not None and len(frag_lits) < (400 if quick else 4000) and (in_fragment or len(frag_lits) % 2):
+        if toks is not None and len(frag_lits) < (400 if quick else 2000) and (in_fragment or len(frag_lits) % 2):
             frag_lits.append("(%s, %s)" % (ctoks(toks), coq.ctext(s)))
             frag_expect.append((s, in_fragment))
         # -- arbiter self-check: without dotted names it IS str.format
@@ -912,6 +912,9 @@ class RealPlaceholder:
             res = ("ok", self._canon(src, tf.templated_str, tf.sliced_file, tf.raw_sliced), len(errs))
         except Exception as e:
             res = ("exc", type(e).__name__)
+        # process() takes its compiled regex OUT of the context before looking parameters up (repaired defect F26): the lookup table
+        # the model gets is the context without that internal entry
+        live = {k: v for k, v in live.items() if k != "__bind_param_regex"}
         return res, live, matches
 
     def run_fake(self, src, ctx_strs, fake_matches):
@@ -999,7 +1002,7 @@ def run_placeholder_part(ctx, coq_ok):
         expect.append((src, what, matches, res))
 
     # -- B1. by-construction oracle, every style, with / without values
-    per_style = 40 if quick else 400
+    per_style = 40 if quick else 300
     for style in styles:
         if style not in NAMED:
             continue
@@ -1047,7 +1050,7 @@ def run_placeholder_part(ctx, coq_ok):
         record(src, live, matches, res, {"style": style, "values": user})
     # -- B3. correspondence only: random strings full of sigils through the real regexes
     alpha = ":$%?&{}()'\"\\sa1_- \n"
-    for _ in range(300 if quick else 6000):
+    for _ in range(300 if quick else 4000):
         style = rng.choice(styles)
         src = "".join(rng.choice(alpha) for _ in range(rng.randrange(0, 14)))
         user = {n: rng.choice(VALUES) for n in ["a", "s", "1", "a1", "sa", "11", "2"] if rng.random() < 0.5}
@@ -1156,8 +1159,8 @@ def run(ctx, coq_ok):
         ph_lits, ph_expect = run_placeholder_part(ctx, coq_ok)
         ph_futs = submit_shards(pool, ["Model.Placeholder"], PH_FN, ph_lits, 1 if quick else 8) if coq_ok else []
         py_lits, py_expect, frag_lits, frag_expect = run_python_part(ctx, coq_ok)
-        frag_futs = submit_shards(pool, ["Model.PyFormat"], FRAG_FN, frag_lits, 1 if quick else 2) if coq_ok else []
-        py_futs = submit_shards(pool, ["Model.PyFormat"], MODEL_FN, py_lits, 2 if quick else 40, defs=python_defs()) if coq_ok else []
+        frag_futs = submit_shards(pool, ["Model.PyFormat"], FRAG_FN, frag_lits, 1) if coq_ok else []
+        py_futs = submit_shards(pool, ["Model.PyFormat"], MODEL_FN, py_lits, 2 if quick else 32, defs=python_defs()) if coq_ok else []
         if coq_ok:
             check_placeholder_model(ctx, ph_expect, gather(ph_futs))
             check_python_model(ctx, py_expect, gather(py_futs))
